@@ -21,10 +21,10 @@ def sh(cmd, cwd=None, env=None, timeout=1800):
     return p.returncode, p.stdout
 
 
-def confirm(prop, var):
-    wt = f'/tmp/wt_{prop}'
+def confirm(prop, var, wt_prefix='/tmp/wt_', sid=None):
+    wt = f'{wt_prefix}{prop}'
     sd = f'{wt}/_seeded'
-    sid = f'{prop}{var}'
+    sid = sid or f'{prop}{var}'
     env = dict(os.environ, PYTHONPATH=f'{wt}/src')
     out = {'id': sid, 'property': prop}
     sh('git checkout -- src', cwd=wt)
@@ -58,6 +58,34 @@ def confirm(prop, var):
     return out
 
 
+def detect_copy(sid, props):
+    """Like detect, but on a scratch copy of /repo/src under $TMPDIR (safe while background runs use /repo)."""
+    import tempfile
+    dst = f'{VERIF}/seeded/{sid}'
+    tmp = tempfile.mkdtemp(prefix='kyupy_seeded_')
+    res = {}
+    try:
+        shutil.copytree('/repo/src', f'{tmp}/src')
+        rc, o = sh(f'patch -p1 -d {tmp} < {dst}/patch.diff')
+        if rc != 0:
+            print('patch does not apply: ' + o); return 2
+        env = dict(os.environ, KYUPY_VERIF_SRC=f'{tmp}/src', PYTHONPATH=f'{VERIF}:{tmp}/src', PYTHONHASHSEED='0')
+        for p in props:
+            rc, o = sh(f'{PY} -m dsim.main {p} --tier quick --no-evidence', cwd=VERIF, env=env)
+            kinds = sorted(set(re.findall(r'# violation kind=(\S+)', o)))
+            nv = re.findall(r'viol_runs=(\d+)', o)
+            runs = re.findall(r'runs=(\d+)', o)
+            res[p] = {'exit': rc, 'caught': rc == 1 and f'VIOLATION property={p}' in o, 'kinds': kinds, 'viol_runs': int(nv[0]) if nv else None, 'runs': int(runs[0]) if runs else None, 'on': 'scratch copy of /repo/src'}
+            print(sid, 'vs', p, res[p], flush=True)
+    finally:
+        shutil.rmtree(tmp, ignore_errors=True)
+    meta_p = f'{dst}/meta.json'
+    meta = json.load(open(meta_p)) if os.path.exists(meta_p) else {}
+    meta.setdefault('detection', {}).update(res)
+    json.dump(meta, open(meta_p, 'w'), indent=1)
+    return 0
+
+
 def detect(sid, props):
     dst = f'{VERIF}/seeded/{sid}'
     patch = f'{dst}/patch.diff'
@@ -86,5 +114,6 @@ def detect(sid, props):
 
 
 if __name__ == '__main__':
-    if sys.argv[1] == 'confirm': confirm(sys.argv[2], sys.argv[3])
+    if sys.argv[1] == 'confirm': confirm(sys.argv[2], sys.argv[3], *(sys.argv[4:6]))
     elif sys.argv[1] == 'detect': sys.exit(detect(sys.argv[2], sys.argv[3:]))
+    elif sys.argv[1] == 'detect-copy': sys.exit(detect_copy(sys.argv[2], sys.argv[3:]))
